@@ -19,6 +19,25 @@ Fixpoint comp_eqb (a b : list (str * str)) : bool :=
 LINE = re.compile(r"to\[([A-Za-z]+)=\$(.*)\$\] \(")
 
 
+class _Timeout(Exception):
+    pass
+
+
+def with_timeout(seconds, fn):
+    """run fn() under SIGALRM; raises _Timeout when it does not return in time"""
+    import signal
+
+    def handler(*a):
+        raise _Timeout()
+    old = signal.signal(signal.SIGALRM, handler)
+    signal.alarm(seconds)
+    try:
+        return fn()
+    finally:
+        signal.alarm(0)
+        signal.signal(signal.SIGALRM, old)
+
+
 def tikz_observe(circuit, running):
     src = circuit.to_circuitikz(running=running)
     comps = []
@@ -53,11 +72,14 @@ def run(rep, tier, seed, tr_errors):
     thm_ok, names, out = lib.check_props_file(rep, PROPS_FILE, expect=["C20_one_component_per_element", "C20_one_variable_per_parameter"])
     n = 250 if tier == "quick" else 4000
     cases, direct = [], []
+    slow = []      # exports that were abandoned after the time limit (sympy on large containers): not counted either way
     from pyimpspec import Circuit, Resistor, Capacitor
     from pyimpspec.circuit.parallel import Parallel
     from pyimpspec.circuit.series import Series
     specials = [Circuit(Series([Parallel([Resistor()])])), Circuit(Series([Resistor(), Parallel([Series([Resistor(), Capacitor()])])])),
                 Circuit(Series([Parallel([Parallel([Resistor(), Capacitor()])])])), Circuit(Series([]))]
+    cdc.SINGLE_PATH_PARALLELS = True
+    specials.append(Circuit(Series([Resistor(), Parallel([Capacitor()]), Resistor()])))
     for i in range(n):
         c = specials[i] if i < len(specials) else cdc.rand_circuit(ctx, rng, depth=rng.randint(0, 3))
         uids = {}
@@ -65,41 +87,47 @@ def run(rep, tier, seed, tr_errors):
         simulated = True
         try:
             with np.errstate(all="ignore"):
-                c.get_impedances(np.array([1.0, 100.0]))
+                with_timeout(30, lambda: c.get_impedances(np.array([1.0, 100.0])))
         except Exception:
             simulated = False
         probs = []
         running = rng.random() < 0.5
         try:
-            comps, ok = tikz_observe(c, running)
+            comps, ok = with_timeout(30, lambda: tikz_observe(c, running))
             if not ok:
                 probs.append("begin/end structure of the CircuiTikZ source is not balanced")
             cases.append((i, t, running, comps))
+        except _Timeout:
+            slow.append("circuitikz")
         except Exception as e:  # noqa
             probs.append("to_circuitikz raised %s: %s" % (type(e).__name__, str(e)[:80]))
         if simulated:
             n_params = sum(len(el.get_values()) for _, el in uids.values())
             try:
-                e0 = c.to_sympy()
+                e0 = with_timeout(60, lambda: c.to_sympy())
                 free = sorted(str(s) for s in e0.free_symbols)
                 labels = [el.get_label() for _, el in uids.values()]
                 if len(set(l for l in labels if l)) == len([l for l in labels if l]):
                     # one variable per parameter (a parameter of an element in an unused position may cancel; at most)
                     if len([s for s in free if s != "f"]) > n_params:
                         probs.append("more symbolic variables (%d) than parameters (%d)" % (len(free) - 1, n_params))
-                e1 = c.to_sympy(substitute=True)
+                e1 = with_timeout(60, lambda: c.to_sympy(substitute=True))
                 if not set(str(s) for s in e1.free_symbols) <= {"f"}:
                     probs.append("substituted expression still has variables %s" % sorted(map(str, e1.free_symbols)))
                 if rng.random() < 0.3:
-                    if not isinstance(c.to_latex(), str):
+                    if not isinstance(with_timeout(60, lambda: c.to_latex()), str):
                         probs.append("to_latex did not return a string")
+            except _Timeout:
+                slow.append("symbolic")
             except Exception as e:  # noqa
                 probs.append("symbolic export raised %s: %s" % (type(e).__name__, str(e)[:80]))
             if rng.random() < (0.08 if tier == "quick" else 0.2):
                 try:
-                    c.to_drawing()
+                    with_timeout(60, lambda: c.to_drawing())
                     import matplotlib.pyplot as plt
                     plt.close("all")
+                except _Timeout:
+                    slow.append("drawing")
                 except Exception as e:  # noqa
                     probs.append("to_drawing raised %s: %s" % (type(e).__name__, str(e)[:80]))
         if probs:
@@ -107,6 +135,8 @@ def run(rep, tier, seed, tr_errors):
         rep.evaluations += 1
         if len(uids) >= 3 and "(" in c.to_string():
             rep.distinct.add(t)
+    cdc.SINGLE_PATH_PARALLELS = False
+    rep.extra["exports_abandoned_after_time_limit"] = len(slow)
     rep.samples = [{"circuit": c[1][:200], "components": c[3][:6]} for c in cases[4:6]]
     shards = [cases[j:j + 100] for j in range(0, len(cases), 100)]
     outs = lib.run_shards(PROP, HEADER, [shard_text(sh) for sh in shards])
